@@ -11,6 +11,11 @@
    stream (its own or — for the refutation — one shared stream), futures, main collects by submission index (or by completion
    order — refutation), `with` block = shutdown(wait=True): idle workers exit once shutdown began, main leaves when all exited.
 
+   One range request (HttpRangeStream.read) is INTERPRETED from gen_stream_read against a server that answers with a status and
+   a body or not at all; `fails r` of the transition systems is instantiated with stream_fails gen_stream_read server.
+   http_queue_strategy's prologue also exists step by step (pstate / pstep: one step per put and per thread start), and is
+   proved to refine the atomic `init` (Proofs/FetchPrologueProofs.v).
+
    The stdlib queue / concurrent.futures / threading semantics above are assumed (documented behaviour), not verified. *)
 From Coq Require Import ZArith List Bool Lia.
 From LasV Require Import Lib.Base Gen.GenFetch.
@@ -36,6 +41,38 @@ Definition isort_on {A} (key : A -> Z) (l : list A) : list A := fold_right (inse
 Definition sort_by_offset (ranges : list range) : list range := isort_on fst ranges.
 
 Definition set_nth {A} (i : nat) (x : A) (l : list A) : list A := firstn i l ++ x :: skipn (S i) l.
+
+(* ------------------------------------------------------------------------------------------------ one range request *)
+(* HttpRangeStream.read(n) at position pos, INTERPRETED from the statement list extracted from the source
+   (Gen/GenFetch.v: gen_stream_read).  The server answers a request for (pos, n) with a status and a body, or not at all
+   (`None`: session.get raises — connection error, retries exhausted).  requests.Response.raise_for_status raises for
+   the client and server error classes, 400 <= status < 600 (assumed, documented behaviour). *)
+Record response := mkResp { r_status : Z; r_body : list Z }.
+Definition http_error (st : Z) : bool := (400 <=? st) && (st <? 600).
+Inductive rres := RData (d : list Z) (pos : Z) | RExc (pos : Z).     (* value returned / exception; position afterwards *)
+
+Fixpoint sread (prog : list sinstr) (server : range -> option response) (pos n : Z) (resp : option response) : rres :=
+  match prog with
+  | [] => RExc pos                                  (* falls off the end: returns None, nothing the callers can copy *)
+  | SZeroEmpty :: p => if n =? 0 then RData [] pos else sread p server pos n resp
+  | SRequest :: p => match server (pos, n) with None => RExc pos | Some r => sread p server pos n (Some r) end
+  | SRaiseForStatus :: p =>
+      match resp with
+      | Some r => if http_error (r_status r) then RExc pos else sread p server pos n resp
+      | None => RExc pos
+      end
+  | SAdvance :: p => sread p server (pos + n) n resp
+  | SReturnContent :: p => match resp with Some r => RData (r_body r) pos | None => RExc pos end
+  end.
+Definition stream_read (prog : list sinstr) (server : range -> option response) (pos n : Z) : rres := sread prog server pos n None.
+
+(* the request for range r (seek(offset) ; read(size)) ends in an exception *)
+Definition stream_fails (prog : list sinstr) (server : range -> option response) (r : range) : bool :=
+  match stream_read prog server (fst r) (snd r) with RExc _ => true | RData _ _ => false end.
+
+(* a server that, when it does not answer with an error status, sends exactly the requested bytes *)
+Definition honest (file : list Z) (server : range -> option response) : Prop :=
+  forall r resp, server r = Some resp -> http_error (r_status resp) = false -> r_body resp = slice file r.
 
 (* ------------------------------------------------------------------------------------------------ queue strategy *)
 Inductive item := IData (r : range) | IExc (r : range).      (* (data, offset) tuple of range r | the exception of range r *)
@@ -153,8 +190,78 @@ Fixpoint effective (s : state) (sched : list nat) : nat :=
 
 End Queue.
 
-(* the prologue of http_queue_strategy: every range queued, then the workers started *)
+(* ------------------------------------------------------------------------------------------------ main's prologue, step by step *)
+(* http_queue_strategy's prologue at the granularity of ITS queue operations and thread starts: `for query in byte_queries:
+   query_queue.put(query)` is one step per put, `for _ in range(k): HttpFetcherThread(..).start()` one step per start (k is
+   evaluated once, when the function is entered: it depends on the arguments only); leaving a loop is a step of its own.
+   A worker exists (can be scheduled) from the moment it was started.  Threads: 0 = main, S i = the i-th worker started. *)
 Definition fresh_worker : wstate := WRun 0 None false.
+Record pstate := mkP { p_toput : list range; p_tostart : nat; p_s : state }.
+
+Fixpoint start_count (mp : list minstr) (n workers : nat) : nat :=
+  match mp with
+  | [] => O
+  | MStart use_min :: _ => if use_min then Nat.min n workers else workers
+  | _ :: t => start_count t n workers
+  end.
+
+Definition pinit (mp : list minstr) (ranges : list range) (workers : nat) : pstate :=
+  mkP ranges (start_count mp (length ranges) workers) (mkS [] 0 [] [] mp [] [] MRunning).
+
+Section Prologue.
+Variable wp : list winstr.
+Variable file : list Z.
+Variable fails : range -> bool.
+
+Definition pmstep (ps : pstate) : option pstate :=
+  let s := p_s ps in
+  match s_status s, s_todo s with
+  | MRunning, MPutAll :: t =>
+      match p_toput ps with
+      | r :: rest => Some (mkP rest (p_tostart ps)
+                               (mkS (s_q s ++ [r]) (S (s_unf s)) (s_resq s) (s_ws s) (s_todo s) (s_local s) (s_buf s) (s_status s)))
+      | [] => Some (mkP [] (p_tostart ps) (with_m s (s_resq s) t (s_local s) (s_buf s) MRunning))
+      end
+  | MRunning, MStart _ :: t =>
+      match p_tostart ps with
+      | S k => Some (mkP (p_toput ps) k
+                         (mkS (s_q s) (s_unf s) (s_resq s) (s_ws s ++ [fresh_worker]) (s_todo s) (s_local s) (s_buf s) (s_status s)))
+      | O => Some (mkP (p_toput ps) O (with_m s (s_resq s) t (s_local s) (s_buf s) MRunning))
+      end
+  | _, _ => option_map (mkP (p_toput ps) (p_tostart ps)) (mstep file s)
+  end.
+
+Definition pstep (ps : pstate) (t : nat) : option pstate :=
+  match t with
+  | O => pmstep ps
+  | S i => option_map (mkP (p_toput ps) (p_tostart ps)) (wstep wp fails (p_s ps) i)
+  end.
+
+Definition prun_one (ps : pstate) (t : nat) : pstate := match pstep ps t with Some ps' => ps' | None => ps end.
+Definition prun (ps : pstate) (sched : list nat) : pstate := fold_left prun_one sched ps.
+
+Inductive preach (ps0 : pstate) : pstate -> Prop :=
+| preach_refl : preach ps0 ps0
+| preach_step : forall ps t ps', preach ps0 ps -> pstep ps t = Some ps' -> preach ps0 ps'.
+
+Definition pstuck (ps : pstate) : Prop := forall t, pstep ps t = None.
+
+End Prologue.
+
+(* what the step-by-step state looks like from the point of view of the atomic prologue below: the ranges still to be put
+   are already queued, the workers still to be started already exist (and have not moved) *)
+Fixpoint strip_prologue (mp : list minstr) : list minstr :=
+  match mp with
+  | MPutAll :: t => strip_prologue t
+  | MStart _ :: t => strip_prologue t
+  | _ => mp
+  end.
+Definition pabs (ps : pstate) : state :=
+  let s := p_s ps in
+  mkS (s_q s ++ p_toput ps) (s_unf s + length (p_toput ps)) (s_resq s) (s_ws s ++ repeat fresh_worker (p_tostart ps))
+      (strip_prologue (s_todo s)) (s_local s) (s_buf s) (s_status s).
+
+(* the prologue of http_queue_strategy as ONE step: every range queued, then the workers started *)
 Definition init (mp : list minstr) (ranges : list range) (workers : nat) : state :=
   match mp with
   | MPutAll :: MStart use_min :: rest =>
@@ -174,6 +281,11 @@ Definition wsum (wp : list winstr) (ws : list wstate) : nat := fold_right (fun w
 Definition measure (wp : list winstr) (s : state) : nat :=
   ((2 * length wp + 1) * length (s_q s) + wsum wp (s_ws s) + length (s_resq s)
    + match s_status s with MRunning => S (length (s_todo s)) | _ => 0 end)%nat.
+
+Definition prologue_len (mp : list minstr) : nat :=
+  length (filter (fun i => match i with MPutAll | MStart _ => true | _ => false end) mp).
+Definition pmeasure (wp : list winstr) (ps : pstate) : nat :=
+  (measure wp (pabs ps) + length (p_toput ps) + p_tostart ps + prologue_len (s_todo (p_s ps)))%nat.
 
 (* the loop this code had before it was repaired: test for emptiness, then a blocking take *)
 Definition old_worker_prog : list winstr := [ITestEmpty; ITake true; IFetch; IPutResult; IPutExc; ITaskDone].
